@@ -306,8 +306,12 @@ impl NodeBounds {
     /// Node bounds for a `comp` node
     pub fn comp(left: Self, right: Self, mid_ty_bit_width: usize) -> NodeBounds {
         NodeBounds {
-            extra_cells: mid_ty_bit_width + cmp::max(left.extra_cells, right.extra_cells),
-            extra_frames: 1 + cmp::max(left.extra_frames, right.extra_frames),
+            // Saturating arithmetic: type widths saturate at usize::MAX (see `Final::sum`),
+            // so these sums can exceed usize. A saturated bound is rejected by the Bit Machine's
+            // limit checks; a wrapped one would size the machine too small.
+            extra_cells: mid_ty_bit_width
+                .saturating_add(cmp::max(left.extra_cells, right.extra_cells)),
+            extra_frames: cmp::max(left.extra_frames, right.extra_frames).saturating_add(1),
             cost: Cost::OVERHEAD + Cost::of_type(mid_ty_bit_width) + left.cost + right.cost,
         }
     }
@@ -350,10 +354,11 @@ impl NodeBounds {
         left_target_bit_width: usize,
     ) -> NodeBounds {
         NodeBounds {
+            // Saturating arithmetic, see `comp`.
             extra_cells: left_source_bit_width
-                + left_target_bit_width
-                + cmp::max(left.extra_cells, right.extra_cells),
-            extra_frames: 2 + cmp::max(left.extra_frames, right.extra_frames),
+                .saturating_add(left_target_bit_width)
+                .saturating_add(cmp::max(left.extra_cells, right.extra_cells)),
+            extra_frames: cmp::max(left.extra_frames, right.extra_frames).saturating_add(2),
             cost: Cost::OVERHEAD
                 + Cost::of_type(left_source_bit_width)
                 + Cost::of_type(left_source_bit_width)
